@@ -223,3 +223,26 @@ package bt
 //@   requires (spec.inputs_nonnil tx) (spec.outputs_nonnil tx)
 //@   requires (< (spec.sum_in tx) 18446744073709551616) (< (spec.sum_out tx) 18446744073709551616) (<= 0 (spec.sum_in tx)) (<= 0 (spec.sum_out tx))
 //@   requires (=> (not (nil? f)) (spec.wf_quote f))
+
+// ---- thread-safe fee quotes: lock-set discipline (C18) ----
+//@ guarded-by bt.FeeQuote.fees mu
+//@ guarded-by bt.FeeQuote.expiryTime mu
+//@ guarded-by bt.FeeQuotes.quotes mu
+// constructors build an object no other goroutine can see yet
+//@ func bt.NewFeeQuote
+//@   opt constructor 1
+//@   fresh result
+//@   ensures[newfeequote] (and (not (nil? result)) (not (nil? (. result fees))))
+//@ func bt.NewFeeQuotes
+//@   opt constructor 1
+// FeeQuote / FeeQuotes objects come from their constructors, which create the maps
+//@ field-assume bt.FeeQuote.fees (not (nil? value))
+//@ field-assume bt.FeeQuotes.quotes (not (nil? value))
+//@ func bt.(*FeeQuote).AddQuote
+//@   ensures[addquote_chain] (= result f)
+//@ func bt.defaultStandardFee
+//@   fresh result
+//@   ensures[defstd] (not (nil? result))
+//@ func bt.defaultDataFee
+//@   fresh result
+//@   ensures[defdata] (not (nil? result))
